@@ -311,6 +311,37 @@ def _ordinal(lst, c):
 SIBLINGS = (("server", r"TowerServiceNoHttp<.*> as tower::Service<.*>>::call$"), ("ws::connect", r"^jsonrpsee_server::transport::ws::connect$"), ("http::call_with_service_builder", r"^jsonrpsee_server::transport::http::call_with_service_builder$"))
 
 
+def r5_unbounded_constructor_gets_fixed_errors(ctx):
+    """`MethodResponse::error` serialises without a size limit; that is sound only because everything handed to it is one of
+    the library's fixed, small error objects: an ErrorCode constant, a `reject_*` helper, `ErrorObject::borrowed` of
+    constants, prepare_error's code, or an invalid batch entry's parts. An error object that carries run-time data
+    (`ErrorObject::owned(.., Some(data))`: a panic message, user input) must go through the bounded constructors."""
+    F, R = ctx.F, ctx.R
+    tr = ctx.tracer(follow_callers=False, follow_fields=False)
+    OKCALL = r"jsonrpsee_types::error::reject_\w+$|ErrorObject::<'.*>::borrowed$|server::(helpers::)?prepare_error$|BatchEntryErr::<'.*>::into_parts$"
+    n = 0
+    for c in F.all_calls(r"MethodResponse::error$"):
+        b = c.body
+        if b.crate not in (CORE, SERVER) or is_test_body(b):
+            continue
+        if re.search(r"MethodResponse::subscription_error$", b.path):
+            continue   # forwards its own parameter; its callers are bounded by R1
+        n += 1
+        R.fn(b)
+        lv = tr.origins(b, c.args[1])
+        bad = []
+        for l in lv:
+            if l.kind == "agg" and (l.detail.get("adt") or "").endswith("ErrorCode"):
+                continue
+            if l.kind == "call" and re.search(OKCALL, l.detail["callee"] or ""):
+                continue
+            if l.kind == "const":
+                continue
+            bad.append(flow.leaf_str(l)[:80])
+        R.check(bool(lv) and not bad, "C08.R5", "%s:error@%d" % (fkey(b), sorted(x.bb for x in b.calls_to(r"MethodResponse::error$")).index(c.bb)), "the unbounded MethodResponse::error gets a fixed library error object", "%s hands MethodResponse::error an error object built from %s: this constructor applies no size limit, so run-time data in the error (a panic message, echoed input) produces a response larger than max_response_body_size" % (short(b.path), bad), where(c))
+    R.floor("C08.R5", n, 10, "MethodResponse::error sites")
+
+
 def rsib_entry_points_agree(ctx):
     """the high-level server and the low-level entry points feed the shared machinery from the same settings"""
     from .common import sibling_config_agreement
@@ -323,7 +354,14 @@ def rcfg_config_verbatim(ctx):
     config_field_integrity(ctx, "C08.CFG", "max_response_body_size")
 
 
-RULES = [r1_size_provenance, r2_bounded_writer, r3_batch, r4_oversize_reply, rsib_entry_points_agree, rcfg_config_verbatim]
+
+def rflag_success_flag_matches_json(ctx):
+    """is_success() agrees with what was serialised (error replacements are flagged Failed)"""
+    from .common import response_flag_matches_json
+    response_flag_matches_json(ctx, "C08.FLAG")
+
+
+RULES = [r1_size_provenance, r2_bounded_writer, r3_batch, r4_oversize_reply, r5_unbounded_constructor_gets_fixed_errors, rsib_entry_points_agree, rcfg_config_verbatim, rflag_success_flag_matches_json]
 
 LEVEL_TEXT = (
     "Structural necessary conditions decided exactly from the type-checked program: provenance of every response-size "
